@@ -44,6 +44,14 @@ def sources(fn, op, extra_transparent=(), opaque=(), max_nodes=4000):
         if pl is None:
             out.add(('other', 'unknown-operand', -1))
             return
+        # tuple precision: `_t.i` where every definition of _t is a tuple aggregate
+        pr = pl.get('p', [])
+        if pr and isinstance(pr[0], dict) and 'f' in pr[0]:
+            ds = fn.defs(pl['l'])
+            if ds and all(d[2] == 'rv' and d[3]['k'] == 'agg' and d[3].get('ak') == 'tuple' and len(d[3]['a']) > pr[0]['f'] for d in ds):
+                for d in ds:
+                    push_op(d[3]['a'][pr[0]['f']])
+                return
         work.append(pl['l'])
 
     push_op(op)
@@ -88,7 +96,10 @@ def sources(fn, op, extra_transparent=(), opaque=(), max_nodes=4000):
                 elif k == 'un':
                     push_op(rv['a'][0])
                 elif k == 'agg':
-                    if rv.get('ak') == 'adt':
+                    if rv.get('ak') == 'adt' and rv['adt'].startswith('core::ops::range::'):
+                        for a in rv['a']:
+                            push_op(a)
+                    elif rv.get('ak') == 'adt':
                         out.add(('agg', rv['adt'] + '::' + rv.get('variant', ''), bi))
                     elif rv.get('ak') in ('tuple', 'array'):
                         for a in rv['a']:
@@ -158,3 +169,43 @@ def reads_locals(fn, op, depth=4000):
             if kind != 'call' and 'pl' in payload:
                 work.append(payload['pl']['l'])
     return seen
+
+
+def fields_read(fn, op, owner, depth=400):
+    """names of the fields of ADT `owner` that the value of an operand is built from
+    (through moves, refs, clones, Option/tuple wrapping; tuple projections are precise)."""
+    out = set()
+    seen = set()
+    work = [op]
+    n = 0
+    while work:
+        o = work.pop()
+        n += 1
+        if n > depth:
+            break
+        pl = op_place(o)
+        if pl is None:
+            continue
+        for pp in pl.get('p', []):
+            if isinstance(pp, dict) and pp.get('o') == owner:
+                out.add(pp['n'])
+        pr = pl.get('p', [])
+        ds = fn.defs(pl['l'])
+        if pr and isinstance(pr[0], dict) and 'f' in pr[0] and ds and all(
+                d[2] == 'rv' and d[3]['k'] == 'agg' and d[3].get('ak') == 'tuple' and len(d[3]['a']) > pr[0]['f'] for d in ds):
+            for d in ds:
+                work.append(d[3]['a'][pr[0]['f']])
+            continue
+        if pl['l'] in seen:
+            continue
+        seen.add(pl['l'])
+        for (bi, si, kind, payload, _ln) in ds:
+            if kind == 'call':
+                for a in payload['a'][:1]:
+                    work.append(a)
+            else:
+                for a in payload.get('a', []):
+                    work.append(a)
+                if 'pl' in payload:
+                    work.append({'c': payload['pl']})
+    return out
